@@ -23,7 +23,7 @@ def r12_1(ctx, rid="R12.1"):
     F = ctx.facts
 
     def body(r):
-        f = F.method(LAZY, "is_match")
+        f = F.loop_form(F.method(LAZY, "is_match"))  # (Option combinators written out: `create_regex().is_some_and(|r| ..)`)
         r.analysed(f)
         self_ = ("param", 1)
         compiled = ("field", self_, "compiled", LAZY)
@@ -56,7 +56,7 @@ def r12_1(ctx, rid="R12.1"):
                 r.ob(key, ok, f.site,
                      "shortcut returning %s under %s: %s" % (show(ret, f), [(show(a, f), v) for a, v in extra],
                                                               "implied by regex == \".*\"" if ok else "the compiled regex may answer differently (e.g. the leaf pattern `^$` for an empty original does not match a non-empty string)"))
-        g = F.method(LAZY, "regex")
+        g = F.loop_form(F.method(LAZY, "regex"))
         r.analysed(g)
         for p in Sym(g, copies=True).paths():
             if p.end[0] != "ret":
